@@ -88,6 +88,14 @@ NOTES = {
     "C09-s9": "C09 first missed it (C07 caught it): scenarios whose first target already has a failed job from an earlier invocation",
     "C09-s10": "first missed: files opened with mode 'x' were not seen as writes by the file hooks, so the crash points inside that write were missing",
     "C07-s10": "a defect of the local pool's own dependency wait (C11 reports it); C07's local part checks what gwf asks the pool for",
+    "C10-s11": "first missed: a pipeline whose first stage fails (succeeds in bash without pipefail) in the spec-line alphabet",
+    "C10-s12": "first missed: SGE memory with upper-case units",
+    "C19-s9": "first missed: the workflow file imports a helper module that lives next to it, same-named modules in the other invoking directories, invoking directory on sys.path (as under `python -m`)",
+    "C20-s9": "first missed: the project sits below a directory that has a configuration file of its own",
+    "C05-s11": "first missed: several name patterns combined with -s / --endpoints filters",
+    "C05-s12": "C05 first missed it (C10 caught it): initial worlds carry log files of a target removed from the workflow — a preview must leave them",
+    "C02-s11": "first missed by C02 and C09: the scheduler rejects the k-th submission (C02: nothing downstream of the rejected target is submitted; C09: what the interrupted run did submit names the right prerequisites)",
+    "C02-s12": "changes what a dry run does to the hash file — C05 (previews change nothing) and C18 (records only on accepted submission) report it; C02 is about real runs",
     "C07-s8": "first missed: the scheduler moves while gwf is submitting (one environment step before the k-th scheduler command of a run)",
 }
 
